@@ -19,9 +19,9 @@ def parse_cases(printed, grammar):
     g = {row[1]: (list(row[2]), list(row[3])) for row in grammar}
     cases = []
     for row in printed:
-        _, role, stage, fam, method, msg, idx, cls = row
+        _, role, stage, fam, method, msg, idx, cls, core = row
         cases.append({"role": role, "stage": stage, "fam": fam, "method": method, "msg": msg, "idx": idx,
-                      "class": cls, "types": g[msg][0], "names": g[msg][1]})
+                      "class": cls, "types": g[msg][0], "names": g[msg][1], "core": bool(core)})
     return cases
 
 
@@ -31,12 +31,16 @@ def stratum(case):
 
 
 def plan(cases, c, rnd):
-    """-> list of (case index, rep) in execution priority order"""
+    """-> list of (case index, rep, must) in execution priority order; must = runs whatever the time budget says
+    (the spec's Core stratum: authentication stages x every field x {cut before, cut inside, not UTF-8})"""
     idx = list(range(len(cases)))
     rnd.shuffle(idx)
+    core = [i for i in idx if cases[i]["core"]]
     if not c.quick:
-        return [(i, rep) for rep in (0, 1) for i in idx]
+        return [(i, 0, True) for i in core] + [(i, 0, False) for i in idx if not cases[i]["core"]] + \
+               [(i, 1, False) for i in idx]
     first, rest, seen = [], [], set()
+    idx = [i for i in idx if not cases[i]["core"]]
     for i in idx:
         s = stratum(cases[i])
         if s in seen:
@@ -53,7 +57,7 @@ def plan(cases, c, rnd):
         if b < len(rest):
             order.append(rest[b])
             b += 1
-    return [(i, 0) for i in order]
+    return [(i, 0, True) for i in core] + [(i, 0, False) for i in order]
 
 
 def run(c):
@@ -85,7 +89,10 @@ def run(c):
     jobs = plan(cases, c, rnd)
     nworkers = 8
     # quick: a fixed driving budget after the emission run (the tier has 60 s for three JVM starts and the driving)
-    deadline = (time.time() + 14.0) if c.quick else (t_start + 10.5 * 60)
+    deadline = (time.time() + 12.0) if c.quick else (t_start + 10.5 * 60)
+    ncore = sum(1 for j in jobs if j[2])
+    if ncore < 150:
+        raise Machinery("the fixed stratum has only %d cases" % ncore)
     slices = [jobs[k::nworkers] for k in range(nworkers)]
     ctx = multiprocessing.get_context("fork")
     rb.CASES = cases                          # inherited by the forked workers
@@ -96,7 +103,9 @@ def run(c):
     if "err" in sens:
         raise sens["err"]
     results = [x for part in parts for x in part]
-    if len(results) < min(len(jobs), 40):
+    if sum(1 for x in results if cases[x[0]]["core"] and x[1] == 0) < ncore:
+        raise Machinery("not every case of the fixed stratum was executed")
+    if len(results) < min(len(jobs), ncore + 20):
         raise Machinery("only %d of %d planned case runs were executed before the deadline" % (len(results), len(jobs)))
     batch, meta = [], []
     unreachable, driver_errors = {}, []
@@ -191,6 +200,7 @@ def run(c):
     c.extra["cases_in_model"] = len(cases)
     c.extra["case_runs_planned"] = planned
     c.extra["case_runs_executed"] = len(results)
+    c.extra["fixed_stratum_cases"] = ncore
     c.extra["surfaced_classes"] = sorted({b["saved"]["cls"] for b in batch if b["saved"]["present"]} |
                                          {b["api"]["cls"] for b in batch if b["api"]["raised"]})
     c.extra["internal_error_keys_seen"] = {k: v["n"] for k, v in sorted(seen.items())}
@@ -202,8 +212,10 @@ def run(c):
               "derived from (VERIF_SEED, case, repetition): random key exchange algorithm, host key type, cut points, "
               "lengths and byte values; CIPHERTEXT cases run once per cipher suite (ctr+hmac, ctr+etm, cbc, gcm); "
               "distinct = distinct abstract cases executed" % (
-                  len(cases), "quick: one case per (role, field type, class) stratum first, then random order until the "
-                  "time budget ends" if c.quick else "thorough: every case twice (second pass: client victims are "
+                  len(cases), "quick: the fixed stratum first (every field of every message parsed in the "
+                  "authentication stages, both roles, each auth method incl. the auth_password -> keyboard-interactive "
+                  "fallback: cut before / inside the field, not UTF-8; always executed), then one case per (role, field "
+                  "type, class) stratum interleaved with random picks until the time budget ends" if c.quick else "thorough: every case twice (second pass: client victims are "
                   "ServiceRequestingTransport)"))
     c.assumptions = [
         "GSS-API: no library in the sandbox; the server-side gssapi-with-mic / gssapi-keyex parsers are reached with a stub "
